@@ -4,7 +4,7 @@ CONSTANTS
   Order <- OrderAB
   ModsOf <- ModsAB
   Params = {"value"}
-  Values = {0, 1}
+  Values = {1}
   UpErrs = {"hw"}
   Conns = {"c1", "c2"}
   StartDown = {}
